@@ -97,6 +97,12 @@ pub fn junk_line(r: &mut Rng, kind: u64) -> (Vec<u8>, &'static str) {
 }
 
 pub fn run(ctx: &Ctx) -> Vec<Report> {
+    let mut v = run_plain(ctx);
+    v.push(run_sweep_sensitive(ctx));
+    v
+}
+
+fn run_plain(ctx: &Ctx) -> Vec<Report> {
     let mut rep = Report::new("C13", "junk-lines");
     let mut r = ctx.rng("c13");
     let recorded = recorded_valid_lines(&ctx.repo, 30_000);
@@ -235,4 +241,111 @@ pub fn run(ctx: &Ctx) -> Vec<Report> {
         }
     }
     vec![rep]
+}
+
+/// Junk lines must not move the expiry sweep either. The table is preloaded (same bytes on both
+/// sides) with aircraft that are then aged beyond `delete_after`, so that every sweep matters: an
+/// expired aircraft heard again before the next sweep keeps its row, heard after it starts a fresh
+/// one. If junk lines advanced the sweep counter (or anything else that decides when accepted lines
+/// are swept), the junk-laden stream and its accepted subsequence end in different tables.
+fn run_sweep_sensitive(ctx: &Ctx) -> Report {
+    let mut rep = Report::new("C13", "junk-lines-vs-expiry-sweep");
+    let mut r = ctx.rng("c13sweep");
+    let n = ctx.share(ctx.n(1600, 60_000));
+    for sno in 0..n {
+        let mut opts = Opts::ur(sno % 2 == 1, sno % 4 >= 2);
+        opts.delete_after = *r.pick(&[5i64, 60, 600]);
+        let nold = 2 + r.below(5) as usize;
+        let old: Vec<u32> = (0..nold).map(|_| r.addr()).collect();
+        let mut prelude: Vec<Vec<u8>> = Vec::new();
+        for a in &old {
+            for f in super::common::rich_history(&mut r, *a) {
+                prelude.push(f.hex().into_bytes());
+            }
+        }
+        let fresh: Vec<u32> = (0..(1 + r.below(3))).map(|_| r.addr()).collect();
+        let len = 3 + r.below(40) as usize;
+        let mut clean: Vec<Vec<u8>> = Vec::new();
+        for _ in 0..len {
+            let a = if r.chance(1, 3) { *r.pick(&old) } else { *r.pick(&fresh) };
+            // short replies (DF11/DF4/DF5) leave most of an old row's fields as they are: a row that was
+            // swept in between is then visibly different from one that was kept
+            let f = match r.below(4) {
+                0 => df11(a, 5, 0),
+                1 => df5(a, 0, r.bits(13) as u32),
+                2 => df4(a, 0, crate::refmodel::codes::enc_ac13_q1(25 * r.below(1500) as i32)),
+                _ => rand_frame(&mut r, a),
+            };
+            clean.push(f.hex().into_bytes());
+        }
+        let mut dirty: Vec<(Vec<u8>, Option<&'static str>)> = clean.iter().map(|l| (l.clone(), None)).collect();
+        let njunk = 1 + r.below(14) as usize;
+        for _ in 0..njunk {
+            let kind = *r.pick(&[0u64, 1, 2, 3, 4, 5, 7, 8, 9, 11]);
+            let (jl, name) = junk_line(&mut r, kind);
+            let pos = r.below(dirty.len() as u64 + 1) as usize;
+            dirty.insert(pos, (jl, Some(name)));
+        }
+        let age = opts.delete_after as f64 * 3.0 + 10.0;
+        let mut tc = Table::new();
+        let mut td = Table::new();
+        let pre_ok = tc.run_bytes(&opts, &prelude.join(&b'\n')).is_ok() && td.run_bytes(&opts, &prelude.join(&b'\n')).is_ok();
+        tc.shift_back(age, None);
+        td.shift_back(age, None);
+        let clean_bytes = clean.join(&b'\n');
+        let dirty_lines: Vec<Vec<u8>> = dirty.iter().map(|x| x.0.clone()).collect();
+        let dirty_bytes = dirty_lines.join(&b'\n');
+        let rc = tc.run_bytes(&opts, &clean_bytes);
+        let rd = td.run_bytes(&opts, &dirty_bytes);
+        let kinds: Vec<&str> = dirty.iter().filter_map(|x| x.1).collect();
+        if !pre_ok || rc.is_err() {
+            rep.inconclusive(format!("prelude or clean stream failed: {:?}", rc));
+            continue;
+        }
+        let sc = tc.snapshot();
+        let sd = td.snapshot();
+        let swept_clean = old.iter().filter(|a| !sc.contains_key(a)).count();
+        rep.eval(Some(&dirty_bytes[..dirty_bytes.len().min(4096)]));
+        rep.count("lines_fed", (clean.len() + dirty.len() + 2 * prelude.len()) as i64);
+        rep.count("junk_lines", kinds.len() as i64);
+        rep.count("expired_rows_preloaded", nold as i64);
+        rep.count("expired_rows_swept_in_clean_run", swept_clean as i64);
+        rep.class(&format!("accepted lines {}..{}", len / 11 * 11, len / 11 * 11 + 10));
+        let diffs = if rd.is_err() { vec![format!("{:?}", rd)] } else { diff_tables(&sc, &sd, 4) };
+        if rep.want_sample() {
+            rep.sample(
+                J::obj()
+                    .with("options", J::s(opts.describe()))
+                    .with("expired_rows_preloaded", J::i(nold as u64))
+                    .with("accepted_lines", J::i(len as u64))
+                    .with("junk_kinds", J::arr_s(&kinds))
+                    .with("expired_rows_left_after_clean_run", J::i((nold - swept_clean) as u64))
+                    .with("tables_equal", J::Bool(diffs.is_empty())),
+            );
+        }
+        if diffs.is_empty() {
+            continue;
+        }
+        let mut script = vec![opts_line(&opts, None), "note prelude, then every row is aged beyond delete_after".to_string(), seg_line_bytes(&prelude), format!("shift {}", age), "note the junk-laden stream; expectations come from the run of its accepted lines only".to_string(), seg_line_bytes(&dirty_lines), "expect-nopanic".into()];
+        let mut addrs: Vec<u32> = sc.keys().chain(sd.keys()).cloned().collect();
+        addrs.sort();
+        addrs.dedup();
+        for a in addrs {
+            match (sc.get(&a), sd.get(&a)) {
+                (Some(_), None) => script.push(format!("expect-present {:06X}", a)),
+                (None, Some(_)) => script.push(format!("expect-absent {:06X}", a)),
+                (Some(x), Some(y)) => {
+                    let (fx, fy) = (x.unstamped().fields(), y.unstamped().fields());
+                    for ((k, v), (_, w)) in fx.iter().zip(fy.iter()) {
+                        if v != w && !k.contains("time") && !k.contains("stamp") {
+                            script.push(format!("expect {:06X} {} {}", a, k, v));
+                        }
+                    }
+                }
+                _ => {}
+            }
+        }
+        rep.violation("junk-moved-the-sweep", kinds.join("+"), format!("{} expired rows preloaded, {} accepted lines + junk {:?} (delete_after {}): table differs from the table of the accepted lines alone: {}", nold, len, kinds, opts.delete_after, diffs.join(" | ")), script);
+    }
+    rep
 }
